@@ -467,6 +467,57 @@ def monC14ha : ObsMonitor Obs C14haSt where
     | .ret a _ => some { ms with pendMut := ms.pendMut.filter (· != a) }
     | _ => some ms
 
+/-! ## C14w — the WaitExited clause of `monC14` alone -/
+
+structure C14wSt where
+  running : List Nat := []
+  outs : List (Nat × Option Nat) := []     -- results of returned instances
+  snaps : List (Nat × List Nat) := []      -- call ↦ instances executing at its invocation
+  doomed : List Nat := []                  -- instances superseded for sure
+  doomedAt : List (Nat × List Nat) := []   -- WaitExited call ↦ `doomed` at its invocation
+  rinr : List (Nat × Bool) := []           -- WaitExited call ↦ returnIfNotRunning
+  errsent : List (Nat × Nat) := []         -- WaitExited call ↦ error sent on its error channel
+deriving Repr
+
+/-- does the result tell that every instance executing at the call was superseded? -/
+def Res.sup : Res → Bool
+  | .bool b => b
+  | .setS _ ch _ _ => ch
+  | .swapR _ _ ch _ _ => ch
+  | .state _ => false
+  | .wx _ => false
+  | _ => true
+
+/-- WaitExited clause of `monC14` alone: WaitExited returns context.Canceled, or nil when asked to return if nothing
+runs, or an error sent on its error channel, or the result of an instance that returned and had not been
+superseded for sure (executing when a superseding call was invoked and still executing when it returned) when
+WaitExited was called. Proved to accept every model trace (`Props.C14w_obs`). -/
+def monC14w : ObsMonitor Obs C14wSt where
+  init := {}
+  step := fun ms o =>
+    match o with
+    | .cbin k _ _ _ => some { ms with running := ms.running ++ [k] }
+    | .cbout k e => some { ms with running := ms.running.filter (· != k), outs := (k, e) :: ms.outs }
+    | .envErr a e => some { ms with errsent := (a, e) :: ms.errsent }
+    | .inv a op =>
+      let ms := { ms with snaps := (a, ms.running) :: ms.snaps }
+      (match op with
+       | .waitExited r => some { ms with doomedAt := (a, ms.doomed) :: ms.doomedAt, rinr := (a, r) :: ms.rinr }
+       | _ => some ms)
+    | .ret a r =>
+      (match r with
+       | .wx e =>
+         let dm := lookupSnap ms.doomedAt a
+         let fresh := ms.outs.any fun p => p.2 == e && !dm.contains p.1
+         (match e with
+          | some 0 => some ms
+          | none => if fresh || (ms.rinr.find? (·.1 == a)).map (·.2) == some true then some ms else none
+          | some e' => if fresh || ms.errsent.contains (a, e') then some ms else none)
+       | r =>
+         let still := (lookupSnap ms.snaps a).filter fun k => ms.running.contains k
+         some { ms with doomed := if r.sup then still ++ ms.doomed else ms.doomed })
+    | _ => some ms
+
 /-! ## C14hb — the first two clauses of `monC14h` alone -/
 
 structure C14hbSt where
